@@ -56,6 +56,13 @@ func c04algKinds() []c04algKind {
 			c04algKind{name: gen.SpellNames[t] + "=diff", present: true, isInt: true, mk: func(k, d cose.Algorithm) any { return gen.SpellIntAs(int64(d), t) }},
 		)
 	}
+	// an unsigned value that is congruent to the key algorithm modulo 2^64 is a different integer
+	ks = append(ks,
+		c04algKind{name: "uint64=wraps-onto-key-alg", present: true, mk: func(k, d cose.Algorithm) any { return uint64(int64(k)) + 0 }},
+		c04algKind{name: "uint=wraps-onto-key-alg", present: true, mk: func(k, d cose.Algorithm) any { return uint(uint64(int64(k))) }},
+		c04algKind{name: "uint32=truncation-of-key-alg", present: true, mk: func(k, d cose.Algorithm) any { return uint32(int64(k)) }},
+		c04algKind{name: "int8=truncation-of-key-alg+256", present: true, isInt: true, mk: func(k, d cose.Algorithm) any { return int16(int64(int8(k)) + 256) }},
+	)
 	for t := 5; t < 10; t++ { // unsigned types
 		t := t
 		ks = append(ks,
@@ -373,6 +380,12 @@ func c04runCell(c *Ctx, rec *mon.Recorder, cell c04cell, idx int) {
 		return nil, false
 	}
 
+	if cell.kind.present && (cell.kind.name == "uint64=wraps-onto-key-alg" || cell.kind.name == "uint=wraps-onto-key-alg" || cell.kind.name == "uint32=truncation-of-key-alg") && cell.keyAlg >= 0 {
+		return // for non-negative algorithms these spellings ARE the key algorithm (covered by the =eq kinds)
+	}
+	if cell.kind.name == "int8=truncation-of-key-alg+256" && (int64(cell.keyAlg) < -128 || int64(cell.keyAlg) > 127) {
+		return
+	}
 	for _, signPath := range []bool{true, false} {
 		exp := c04expectation(cell, signPath)
 		path := "verify"
